@@ -34,7 +34,7 @@ ANCHORS = [
     "acnportal.acnsim.interface:Interface.remaining_amp_periods",
     "acnportal.algorithms.base_algorithm:BaseAlgorithm.run",
 ]
-REQUIRED = ["schedulers_swapped_from_inside_an_invocation", "schedulers_swapped_mid_run_after_an_exception", "schedulers_attached_with_update_scheduler", "runs_resumed_after_a_scheduler_exception", "deep_copied_algorithm_and_simulator_runs", "interface_queried_at_registration", "invocations_judged", "invocations_without_event", "runs_judged", "mutating_twins", "active_sets_judged",
+REQUIRED = ["stochastic_invocations_judged", "runs_with_early_departures", "schedulers_swapped_from_inside_an_invocation", "schedulers_swapped_mid_run_after_an_exception", "schedulers_attached_with_update_scheduler", "runs_resumed_after_a_scheduler_exception", "deep_copied_algorithm_and_simulator_runs", "interface_queried_at_registration", "invocations_judged", "invocations_without_event", "runs_judged", "mutating_twins", "active_sets_judged",
             "sessions_filtered_as_satisfied", "pilot_queries_judged", "infrastructure_judged", "regime:mr-None", "regime:mr-1",
             "regime:mr-k", "inner:scripted", "inner:uncontrolled", "inner:sorted"]
 BUDGET_S = {"quick": 240, "thorough": 3000}
@@ -58,6 +58,18 @@ def cases(seed, tier):
                     "fault_at": rng.choice([0, 1, 2, 3, 5]) if rng.random() < 0.25 else None})
         if rng.random() < 0.15 and not out[-1]["copy_pair"]:
             d["swap_from"] = {"mr": rng.choice([1, 2, 3, 7, None]), "json": rng.random() < 0.4}
+    for i in range(n // 6):
+        # more cars than spaces on a network that assigns spaces at run time
+        d = gen.scenario(rng, sched="uncontrolled", kinds=("EVSE",), nmax=3, sess_max=2, noise_p=0.0, inf_evse_p=0.0, odd_ids_p=0.0)
+        ids = [s_["id"] for s_ in d["network"]["stations"]]
+        sess = []
+        for k in range(rng.randint(len(ids) + 1, len(ids) + 6)):
+            a = rng.randint(0, 6)
+            req = rng.choice([0.3, 1, 3, 25])
+            sess.append({"id": f"q{k}", "station": rng.choice(ids), "arrival": a, "departure": a + rng.randint(2, 9), "requested": req,
+                         "est_dep": a + 3, "battery": gen.rand_battery(rng, req, ("ideal", "l2c"))})
+        d["sessions"], d["recompute"] = sess, []
+        out.append({"desc": d, "stochastic": True, "rseed": rng.randrange(1 << 30), "early": rng.random() < 0.6})
     for i in range(n // 8):
         d = gen.scenario(rng, sched="scripted", noise_p=0.0, mr=rng.choice([2, 3, 4, 5, 7, None, 1]), recompute_p=0.2)
         out.append({"desc": d, "swap_mid": {"at": rng.choice([1, 2, 2, 3, 4]), "mr2": rng.choice([1, 2, 3, 5, None]), "json": rng.random() < 0.35,
@@ -332,9 +344,99 @@ def _run_swap_mid(case, obs):
     obs.sample = {"kind": "swap_mid", "mrA": mrA, "mrB": mrB, "fault_period": tf, "A": logs["A"], "B": logs["B"][:12]}
 
 
+def _run_stochastic(case, obs):
+    """The same clauses on a network that assigns spaces at run time (contrib StochasticNetwork, more cars than spaces, early
+    departure on or off): who is connected, what each session received, the previous period's rates and the previous peak are
+    taken from a ledger of every EV.charge call (period, session, returned rate, voltage) and from the network's own public
+    get_ev(), not from the simulator's matrices."""
+    import warnings as _w
+    from acnportal.acnsim.models import EV
+    from acnportal.algorithms import BaseAlgorithm
+    from acnportal.contrib.acnsim.network import StochasticNetwork
+    from vlib.monitors import Wrap
+    d = case["desc"]
+    per = d["period"]
+    box, ledger, rec = {}, {}, []
+    wit = dict(scenario=d, rseed=case["rseed"], early_departure=case["early"])
+
+    def after_charge(ctx, result, exc):
+        if exc is None and "sim" in box:
+            ev_, a_, k_ = ctx
+            volt = a_[1] if len(a_) > 1 else k_.get("voltage")
+            ledger[(box["sim"].iteration, ev_.session_id)] = (float(result), float(volt))
+
+    class Rec(BaseAlgorithm):
+        def __init__(self):
+            super().__init__()
+            self.max_recompute = 1
+
+        def schedule(self, active):
+            i = self.interface
+            net = box["sim"].network
+            rec.append({"t": i.current_time, "active": {a.session_id: (a.station_id, float(a.energy_delivered), float(a.requested_energy)) for a in active},
+                        "last_rate": {k: float(v) for k, v in i.last_actual_charging_rate.items()}, "peak": float(i.get_prev_peak()),
+                        "connected": {net.get_ev(st).session_id: st for st in net.station_ids if net.get_ev(st) is not None}})
+            return {a.station_id: [float(i.max_pilot_signal(a.station_id))] for a in active}
+
+    random.seed(case["rseed"])
+    sim, evs = build.build_sim(d, scheduler=Rec(), net_cls=StochasticNetwork, net_kw={"early_departure": case["early"]})
+    box["sim"] = sim
+    w = Wrap(EV, "charge", before=lambda o, a, k: (o, a, k), after=after_charge).install()
+    try:
+        with _w.catch_warnings():
+            _w.simplefilter("ignore")
+            try:
+                sim.run()
+            except Exception as e:
+                obs.violate("run_raised", f"{type(e).__name__}: {e}", **wit)
+                return
+    finally:
+        w.remove()
+    obs.ev("runs_on_a_network_assigning_spaces_at_run_time")
+    if getattr(sim.network, "early_unplug", 0):
+        obs.ev("runs_with_early_departures")
+    req = {s["id"]: s["requested"] for s in d["sessions"]}
+    obs.evals = len(rec)
+    for o in rec:
+        t = o["t"]
+        ww = dict(period=t, **wit)
+        got = {sid: sum(r * v for (u, s_), (r, v) in ledger.items() if s_ == sid and u < t) * per / 60.0 / 1000.0 for sid in o["connected"]}
+        margin = min([abs(req[sid] - got[sid] - 1e-3) for sid in got] + [1.0])
+        if margin < 1e-9:
+            obs.boundary += 1
+            continue
+        exp_active = {sid for sid in o["connected"] if req[sid] - got[sid] > 1e-3}
+        obs.ev("stochastic_invocations_judged")
+        if set(o["active"]) != exp_active:
+            obs.violate("active_set", f"period {t}: scheduler saw {sorted(o['active'])}; connected (network.get_ev) and unsatisfied (charge-call "
+                        f"ledger) are {sorted(exp_active)}", **ww)
+            continue
+        for sid, (st, dl, rq) in o["active"].items():
+            if st != o["connected"][sid]:
+                obs.violate("observed_session_fields", f"period {t}: session {sid} shown on {st}, connected to {o['connected'][sid]}", **ww)
+            if not abs(dl - got[sid]) <= 1e-9 * max(1.0, got[sid]):
+                obs.violate("observed_energy_delivered", f"period {t} session {sid}: saw {dl!r}, the charge calls sum to {got[sid]!r}", **ww)
+        exp_rate = {sid: ledger.get((t - 1, sid), (0.0, 0.0))[0] for sid in exp_active}
+        if set(o["last_rate"]) != exp_active or any(not abs(o["last_rate"][k] - e) <= 1e-9 * max(1.0, abs(e)) for k, e in exp_rate.items()):
+            obs.violate("observed_last_actual_rate", f"period {t}: saw {o['last_rate']}, the charge calls of period {t - 1} returned {exp_rate}", **ww)
+        per_u = {}
+        for (u, s_), (r, v) in ledger.items():
+            if u < t:
+                per_u[u] = per_u.get(u, 0.0) + r
+        pk = max([0.0] + list(per_u.values()))
+        if not abs(o["peak"] - pk) <= 1e-9 * max(1.0, pk):
+            obs.violate("observed_prev_peak", f"period {t}: saw {o['peak']!r}; the largest per-period sum of the rates the cars actually drew is {pk!r}", **ww)
+    if len(rec) >= 3:
+        obs.nontrivial()
+    obs.sample = {"kind": "stochastic", "stations": len(d["network"]["stations"]), "sessions": len(d["sessions"]), "early_departure": case["early"],
+                  "invocations": len(rec), "early_unplugs": getattr(sim.network, "early_unplug", None)}
+
+
 def run_case(case, obs):
     if case.get("swap_mid"):
         return _run_swap_mid(case, obs)
+    if case.get("stochastic"):
+        return _run_stochastic(case, obs)
     d = case["desc"]
     nd = d["network"]
     fbox = {}
@@ -436,12 +538,7 @@ def run_case(case, obs):
                     obs.violate("observed_session_fields", f"period {t} session {sid}: remaining_demand {a['rem_demand']!r}, requested - delivered = {s['requested'] - dl!r}", **w)
             if a.get("rem_time") is not None and a["rem_time"] != max(min(s["departure"] - s["arrival"], s["departure"] - t), 0):
                 obs.violate("observed_session_fields", f"period {t} session {sid}: remaining_time {a['rem_time']!r} (arrival {s['arrival']}, departure {s['departure']})", **w)
-            if str(d.get("int_type", "")).startswith("uint"):
-                # periods until arrival of a car that has arrived = max(arrival - now, 0) evaluated in the arrival's own unsigned
-                # type wraps (numpy's arithmetic on a type the signature does not name); the statement does not speak of this
-                # derived quantity, so it is recorded, not judged, for unsigned period indices
-                obs.ev("arrival_offset_not_judged_for_unsigned_period_indices")
-            elif a.get("arr_off") is not None and a["arr_off"] != max(s["arrival"] - t, 0):
+            if a.get("arr_off") is not None and a["arr_off"] != max(s["arrival"] - t, 0):
                 obs.violate("observed_session_fields", f"period {t} session {sid}: arrival_offset {a['arr_off']!r} (arrival {s['arrival']})", **w)
             ap = (s["requested"] - dl) * 1000.0 / st_of[s["station"]]["voltage"] * 60.0 / per
             if not (abs(a["amp_periods"] - ap) <= 1e-9 * max(1.0, abs(ap))):
